@@ -21,9 +21,10 @@ def lbpTop (T : Tbl) : Tree → Option Nat
   | .bin o _ _ => some (T.lbp o)
   | .typed o _ _ => some (T.lbp o)
   | .post o _ _ _ => some (T.lbp o)
+  | .arrow o _ _ _ => some (T.lbp o)
   | _ => none
 
-def ledRbp (T : Tbl) (o : Nat) : Nat := match T.led o with | .infix r _ _ => r | _ => 0
+def ledRbp (T : Tbl) (o : Nat) : Nat := match T.led o with | .infix r _ _ => r | .arrow _ ar _ _ => ar | _ => 0
 def nudRbp (T : Tbl) (p : Nat) : Nat := match T.nud p with | .prefix r _ => r | _ => 0
 
 /-- the `rbp` of the innermost `expression(rbp)` call that returned the right edge of the tree
@@ -31,6 +32,7 @@ def nudRbp (T : Tbl) (p : Nat) : Nat := match T.nud p with | .prefix r _ => r | 
 def rclose (T : Tbl) : Tree → Option Nat
   | .bin o _ _ => some (ledRbp T o)
   | .pre p _ => some (nudRbp T p)
+  | .arrow o _ _ _ => some (ledRbp T o)
   | _ => none
 
 /-- what the Pratt loop guarantees about every node, in terms of binding powers -/
@@ -61,6 +63,12 @@ def WFr (T : Tbl) : Tree → Prop
           c = c' ∧ WFr T l ∧ leO (T.lbp o) (rclose T l) ∧ deny.contains l.head = false ∧
             ((e = .nil ∧ eo = true) ∨ WFr T e)
       | _ => False
+  | .arrow o l f a =>
+      match T.led o with
+      | .arrow sr ar start g =>
+          WFr T l ∧ WFr T f ∧ WFr T a ∧ leO (T.lbp o) (rclose T l) ∧ gtO sr (lbpTop T f) ∧ gtO ar (lbpTop T a) ∧
+            rhsOk start f.yield = true ∧ a.head = 2 * g + 1
+      | _ => False
 
 /-- the next token, if an operator, has `lbp ≤ b` -/
 def headLe (T : Tbl) (b : Option Nat) : List Tok → Prop
@@ -78,6 +86,7 @@ theorem wfr_yield_ne_nil (T : Tbl) : ∀ t, WFr T t → t.yield ≠ []
   | .bin _ l _, _ => by simp [Tree.yield]
   | .typed _ l _, _ => by simp [Tree.yield]
   | .post _ _ l _, _ => by simp [Tree.yield]
+  | .arrow _ l _ _, _ => by simp [Tree.yield]
 
 theorem tokCode_append (a b : List Tok) (h : a ≠ []) : tokCode (a ++ b) = tokCode a := by
   cases a with
@@ -258,6 +267,36 @@ theorem pratt_inv (T : Tbl) : ∀ f,
                   · simp at h
                 · simp at h
                 · simp at h
+          · -- arrow
+            rename_i sr ar start g hled
+            split at h
+            · simp at h
+            · rename_i hstart
+              split at h
+              · rename_i s rest1 hs
+                split at h
+                · rename_i a rest2 ha
+                  split at h
+                  · rename_i hhead
+                    have hs' := ihe sr tl s rest1 hs
+                    have ha' := ihe ar rest1 a rest2 ha
+                    have hne := wfr_yield_ne_nil T s hs'.wf
+                    have hwf' : WFr T (.arrow o left s a) := by
+                      simp only [WFr, hled]
+                      refine ⟨hwf, hs'.wf, ha'.wf, hcl, hs'.top, ha'.top, ?_, by simpa using hhead⟩
+                      have : rhsOk start tl = true := by simpa using hstart
+                      rw [← hs'.yld, rhsOk_append _ _ _ hne] at this
+                      exact this
+                    have := ihl rbp (.arrow o left s a) rest2 t rest h hwf' (by simpa [lbpTop, gtO] using hlt)
+                      (by
+                        have := ha'.nxt
+                        simp only [rclose, ledRbp, hled]
+                        exact this)
+                    refine ⟨this.wf, this.top, ?_, this.nxt⟩
+                    rw [this.yld, ← hs'.yld, ← ha'.yld]; simp [Tree.yield]
+                  · simp at h
+                · simp at h
+              · simp at h
           · simp at h
           · simp at h
         · rename_i hge
